@@ -501,3 +501,69 @@ Proof. intros ops st W. destruct (FanoutProofs.run_order ops st W) as (_ & _ & A
 Print Assumptions c01_every_recipient_shows_acknowledged.
 Print Assumptions c01_channel_subscriptions_are_recipients.
 Print Assumptions c01_recipient_numbers_increasing.
+
+(* ---- later QUERIES of channel subscriptions, p2p participants and sessions acting on behalf of a user:
+   model Sys/FanoutQueryC01.v (the fan-out model plus the stored message rows and the {get desc} / {get data}
+   of an attached session). *)
+From Tinode Require Sys.FanoutQueryC01 Sys.FanoutQueryC01Proofs.
+
+(* an accepted publish stores the row (acknowledged number, author, content); that number becomes lastID *)
+Theorem c01_query_publish_stores_acknowledged : forall x px q a c p st',
+  Fanout.publish (FanoutQueryC01.q_st x) px = (Fanout.PAccepted q a c p, st') ->
+  FanoutQueryC01.qstep x (FanoutQueryC01.QBase (Fanout.OPub px)) =
+    (Some (FanoutQueryC01.mkQ st' (FanoutQueryC01.q_msgs x ++ [mkMsg q (Fanout.px_author px) (Fanout.px_content px) 0])),
+     Some (Fanout.PAccepted q a c p), []) /\
+  q = (Fanout.st_lastid (FanoutQueryC01.q_st x) + 1)%Z /\ Fanout.st_lastid st' = q.
+Proof. exact FanoutQueryC01Proofs.qstep_pub_accepted. Qed.
+
+(* no other request stores a row or moves lastID *)
+Theorem c01_query_only_publish_stores : forall x o ox res out,
+  FanoutQueryC01.qstep x o = (ox, res, out) ->
+  (forall px q a c p, o = FanoutQueryC01.QBase (Fanout.OPub px) -> res <> Some (Fanout.PAccepted q a c p)) ->
+  FanoutQueryC01.q_msgs (FanoutQueryC01.qnext x ox) = FanoutQueryC01.q_msgs x /\
+  Fanout.st_lastid (FanoutQueryC01.q_st (FanoutQueryC01.qnext x ox)) = Fanout.st_lastid (FanoutQueryC01.q_st x).
+Proof. exact FanoutQueryC01Proofs.qstep_stores_nothing. Qed.
+
+(* every history from a topic without messages: the stored rows are numbered 1 .. lastID, one row per number,
+   and rows once stored are never changed (the log only grows) *)
+Theorem c01_query_rows_numbered : forall ops st, Fanout.st_lastid st = 0 ->
+  FanoutQueryC01Proofs.qinv (fst (FanoutQueryC01.qrun (FanoutQueryC01.qinit st) ops)).
+Proof. intros ops st H. apply FanoutQueryC01Proofs.qrun_inv. apply FanoutQueryC01Proofs.qinv_init. exact H. Qed.
+Theorem c01_query_rows_kept : forall ops x, exists tl,
+  FanoutQueryC01.q_msgs (fst (FanoutQueryC01.qrun x ops)) = FanoutQueryC01.q_msgs x ++ tl.
+Proof. exact FanoutQueryC01Proofs.qrun_prefix. Qed.
+
+(* DESCRIPTION: a subscriber with R - a channel reader included - is shown seq = lastID under every name he may
+   use and for every value of the If-Modified-Since option *)
+Theorem c01_query_desc_shows_lastid : forall st s u name i p,
+  Fanout.chan_ok st (FanoutQueryC01.name_chan_c01q name) = true ->
+  Fanout.lookup u (Fanout.st_users st) = Some p -> Fanout.has (Fanout.eff p) Fanout.bR = true ->
+  FanoutQueryC01.q_get_desc st s u name i = [(s, FanoutQueryC01.QDesc true true (Fanout.st_lastid st))].
+Proof. exact FanoutQueryC01Proofs.q_desc_reader. Qed.
+
+(* HISTORY: every {data} of an answer is a stored row: its number and content are the row's, the author is the
+   row's or withheld (channel name) *)
+Theorem c01_query_history_shows_stored_rows : forall x s u name a b l s' t f q c,
+  In (s', FanoutQueryC01.QData t f q c) (FanoutQueryC01.q_get_data x s u name a b l) ->
+  exists m, In m (FanoutQueryC01.q_msgs x) /\ m_seq m = q /\ m_content m = c /\ (f = 0%N \/ f = m_from m).
+Proof. exact FanoutQueryC01Proofs.q_data_from_store. Qed.
+
+(* ... and an unbounded query shows every stored row (up to the adapter's page of 100 rows) *)
+Theorem c01_query_history_complete : forall ms u,
+  FanoutQueryC01Proofs.rows_live ms -> (length ms <= 100)%nat ->
+  Permutation.Permutation (ad_msg_get_all (FanoutQueryC01.store_of_c01q ms) u 0 0 0) ms.
+Proof. exact FanoutQueryC01Proofs.q_history_complete. Qed.
+
+Print Assumptions c01_query_publish_stores_acknowledged.
+Print Assumptions c01_query_only_publish_stores.
+Print Assumptions c01_query_rows_numbered.
+Print Assumptions c01_query_rows_kept.
+Print Assumptions c01_query_desc_shows_lastid.
+Print Assumptions c01_query_history_shows_stored_rows.
+Print Assumptions c01_query_history_complete.
+
+Example c01_query_ex :
+  snd (FanoutQueryC01.qrun (FanoutQueryC01.qinit FanoutQueryC01Proofs.wq_st) FanoutQueryC01Proofs.wq_ops) =
+  [[]; []; [(3%N, FanoutQueryC01.QDesc true true 2)];
+   [(3%N, FanoutQueryC01.QData Fanout.TChn 0%N 2 102%N); (3%N, FanoutQueryC01.QData Fanout.TChn 0%N 1 101%N); (3%N, FanoutQueryC01.QCtrl 208)]].
+Proof. exact FanoutQueryC01Proofs.wq_ok. Qed.
